@@ -100,10 +100,16 @@ class Box(object):
 
 # -- phases ------------------------------------------------------------------------
 
-def sow(box):
+def sow(box, resow=False):
     c = box.crop(for_sow=True)
     if box.farmer == "sampler":
         vals = list(COMBOS["a"])
+        rdir = os.path.join(box.location(), "results")
+        if resow and not (os.path.isdir(rdir) and os.listdir(rdir)):
+            # the recovery's re-sow draws afresh (here: the same arguments in another order); batch files that survived the kill
+            # belong to the old draws and must not be kept.  (Only when no result survived: a Sampler re-sown over surviving
+            # results pairs them with the new draws on the pinned tree too - see DESIGN 15, lead.)
+            vals = vals[::-1]
         it = iter(vals)
         c.sow_samples(len(vals), combos={"a": lambda: next(it)}, verbosity=0)
     else:
@@ -313,7 +319,7 @@ def recover(box):
                 os.remove(os.path.join(box.location(), "xyz-settings.jbdmp"))
             except OSError:
                 pass
-        sow(box)
+        sow(box, resow=True)
         c = box.crop()
     bad = c.check_bad()
     if bad:
